@@ -15,6 +15,54 @@ from harness.core import run_driver
 from harness.conf_C01 import compare, mc_reader
 
 
+OPT_SCRIPT = """
+import sys, json, warnings
+warnings.simplefilter('ignore')
+import FlowCal.io
+out = []
+for p in sys.argv[1:]:
+    try:
+        FlowCal.io.FCSFile(p)
+        out.append(p)
+    except Exception:
+        pass
+print('LOADED=' + json.dumps(out))
+"""
+
+
+def optimised_interpreter(chk, refused):
+    """Files the library refuses must be refused whatever the interpreter's switches: the same loads under `python -O`
+    (assert statements compiled away).  refused: list of (bytes, layout, fault) of files just seen refused."""
+    import subprocess
+    import sys
+    if not refused:
+        raise tlc.MachineryError('C16: no refused file to load under python -O')
+    d = tlc.scratch('c16o_')
+    paths = []
+    for i, (b, lay, flt) in enumerate(refused):
+        p = os.path.join(d, '%05d.fcs' % i)
+        with open(p, 'wb') as f:
+            f.write(bytes(b))
+        paths.append(p)
+    env = dict(os.environ, PYTHONPATH=core.REPO, PYTHONOPTIMIZE='1')
+    loaded = []
+    for k in range(0, len(paths), 2000):
+        pr = subprocess.run([sys.executable, '-O', '-c', OPT_SCRIPT] + paths[k:k + 2000], env=env, cwd=d, stdout=subprocess.PIPE,
+                            stderr=subprocess.PIPE, universal_newlines=True, timeout=1800)
+        m = [ln for ln in pr.stdout.splitlines() if ln.startswith('LOADED=')]
+        if pr.returncode != 0 or not m:
+            raise tlc.MachineryError('python -O loader failed: ' + pr.stderr[-800:])
+        loaded += json.loads(m[0][7:])
+    for p in loaded:
+        b, lay, flt = refused[int(os.path.basename(p)[:5])]
+        fk = flt['k'] if flt['k'] != 'field' else 'field:%s:%s' % (flt['field'], flt['how'])
+        chk.violation('C16/%s/refused-only-by-an-assert-statement' % fk, {'layout': lay, 'fault': flt, 'bytes': b, 'interpreter': 'python -O'},
+                      'refused', 'loaded under python -O (the check that refuses this file is an assert statement)')
+    chk.extra['refusals_repeated_under_python_O'] = len(paths)
+    for _ in paths:
+        chk.traces += 1
+
+
 def main(chk, replay=None):
     chk.rule = ('GEN: layouts x {truncation at every offset, empty file, 10 fields x 4 corruptions}; non-trivial = every '
                 'damaged file (distinct by layout and fault); exhaustive per file')
@@ -40,6 +88,7 @@ def main(chk, replay=None):
     neg = False
     kinds = {}
     n = 0
+    refused = []
     for st in res.dump_states():
         out = st['out']
         flt = st['scn']['flt']
@@ -54,6 +103,8 @@ def main(chk, replay=None):
                                  'C16 comparator accepts a refusal as a load')
             neg = True
         lay = st['scn']['lay']
+        if obs.get('k') == 'refused' and out['k'] == 'refused' and (not chk.quick or (n + chk.seed) % 4 == 0):
+            refused.append((st['file'], lay, flt))
         fk = flt['k'] if flt['k'] != 'field' else 'field:%s:%s' % (flt['field'], flt['how'])
         kinds[(flt['k'], out['k'])] = kinds.get((flt['k'], out['k']), 0) + 1
         chk.case(('f', json.dumps(lay), json.dumps(flt)), nontrivial=True,
@@ -83,6 +134,7 @@ def main(chk, replay=None):
                           {'layout': lay, 'fault': flt, 'bytes': st['file']},
                           {k: out[k] for k in ('k', 'why', 'N', 'D', 'data')},
                           {k: obs.get(k) for k in ('k', 'exc', 'N', 'D', 'data', 'fcsdata')})
+    optimised_interpreter(chk, refused)
     chk.extra['fault_outcomes'] = {'%s->%s' % k: v for k, v in sorted(kinds.items())}
     chk.exhaustive = True
 
